@@ -34,9 +34,9 @@ type input struct {
 	wdone    atomic.Int64
 	wstart   atomic.Int64 // sends started (item handed to the channel operation)
 	closed   atomic.Bool
-	removed  bool
+	removed  atomic.Bool
 	replaced bool
-	unreg    bool // channel of an AddInput call that has not returned yet
+	unreg    atomic.Bool // channel of an AddInput call that has not returned yet
 	deliv    int
 }
 
@@ -518,7 +518,7 @@ func (e *exec) wait() {
 	e.tr.TermAllClosed = true
 	e.tr.TermPending = 0
 	for _, in := range e.inputs {
-		if in.removed || in.unreg {
+		if in.removed.Load() || in.unreg.Load() {
 			continue
 		}
 		if !in.closed.Load() {
@@ -572,7 +572,7 @@ func (e *exec) snapshot(epilogue bool) {
 		sn.Total++
 	}
 	for _, in := range e.inputs {
-		if in.removed || in.unreg {
+		if in.removed.Load() || in.unreg.Load() {
 			continue
 		}
 		sn.Pending[in.p] = in.enq - in.deliv
@@ -775,7 +775,7 @@ func (e *exec) doOp(op Op) {
 		e.wait()
 	case "C":
 		in := e.inputs[op.P]
-		if in == nil || in.closeReq || in.removed {
+		if in == nil || in.closeReq || in.removed.Load() {
 			noop()
 			return
 		}
@@ -848,13 +848,13 @@ func (e *exec) doOp(op Op) {
 			return
 		}
 		old := e.inputs[op.P]
-		if old != nil && !old.removed {
+		if old != nil && !old.removed.Load() {
 			old.replaced = true
 		} else {
 			old = nil
 		}
 		in := e.newInput(op.P, op.N)
-		in.unreg = true
+		in.unreg.Store(true)
 		e.write(in, op.M)
 		e.wait()
 		e.mu.Lock()
@@ -867,7 +867,7 @@ func (e *exec) doOp(op Op) {
 		e.helper(func() {
 			e.ad.addInput(in.ch, op.P)
 			e.mu.Lock()
-			in.unreg = false
+			in.unreg.Store(false)
 			e.configured[op.P] = true
 			e.tr.Inputs[ev].Returned = true
 			e.tr.Inputs[ev].ReturnedAt = e.now()
@@ -881,7 +881,7 @@ func (e *exec) doOp(op Op) {
 		e.wait()
 	case "X":
 		in := e.inputs[op.P]
-		if e.ad.removeInput == nil || in == nil || in.removed || e.stopIssued || e.ctlPending(op.P) {
+		if e.ad.removeInput == nil || in == nil || in.removed.Load() || e.stopIssued || e.ctlPending(op.P) {
 			noop()
 			return
 		}
@@ -892,7 +892,7 @@ func (e *exec) doOp(op Op) {
 		e.helper(func() {
 			e.ad.removeInput(op.P)
 			e.mu.Lock()
-			in.removed = true
+			in.removed.Store(true)
 			e.removedSet[op.P] = true
 			delete(e.configured, op.P)
 			e.tr.Inputs[ev].Returned = true
@@ -1029,7 +1029,7 @@ func (e *exec) stop(kind string, n int) {
 	}
 	// after Stop returned nothing more may be written to the output: offer more data, wait, look
 	for _, in := range e.inputs {
-		if !in.closeReq && !in.removed {
+		if !in.closeReq && !in.removed.Load() {
 			e.write(in, 3)
 		}
 	}
@@ -1081,7 +1081,7 @@ func (e *exec) epilogue() {
 		}
 	}
 	for _, in := range e.inputs {
-		if !in.closeReq && !in.removed {
+		if !in.closeReq && !in.removed.Load() {
 			in.closeReq = true
 			in.cmds <- wcmd{close: true}
 		}
@@ -1116,7 +1116,7 @@ func (e *exec) epilogue() {
 			e.mu.Lock()
 			pend := 0
 			for _, in := range e.inputs {
-				if !in.removed && !in.unreg {
+				if !in.removed.Load() && !in.unreg.Load() {
 					pend += in.enq - in.deliv
 				}
 			}
@@ -1193,7 +1193,7 @@ func execute1(t *testing.T, s Script, leakScan bool, budget time.Duration) Trace
 			close(e.quit)
 			e.wg.Wait()
 			for _, in := range e.all {
-				tr.InStat = append(tr.InStat, InStat{P: in.p, Gen: in.gen, Cap: in.cap, Enq: in.enq, WDone: int(in.wdone.Load()), Closed: in.closed.Load(), Removed: in.removed, Replaced: in.replaced, Delivered: in.deliv, Reads: in.reads()})
+				tr.InStat = append(tr.InStat, InStat{P: in.p, Gen: in.gen, Cap: in.cap, Enq: in.enq, WDone: int(in.wdone.Load()), Closed: in.closed.Load(), Removed: in.removed.Load(), Replaced: in.replaced, Delivered: in.deliv, Reads: in.reads()})
 			}
 			for i := range tr.Inputs {
 				if tr.Inputs[i].Kind == "add" && !tr.Inputs[i].Returned {
